@@ -141,6 +141,7 @@ type syncInput struct {
 	ClockSkew bool      `json:"clockSkew"` // the remote's commits carry decreasing timestamps
 	RefsLost bool       `json:"refsLost"` // the remote-tracking ref of main was deleted locally (an earlier fetch died after its last object write, before its ref write)
 	StreamResets int    `json:"streamResets"` // fetch / pull: the first k packfile responses are cut half way with an HTTP/2 stream error
+	Dribble      int    `json:"dribble"`      // the first k reads of EVERY response body deliver 1..3 bytes only (a transport is free to do so)
 	ExpTag bool         `json:"expTag"` // the remote has a tag on the second branch, outside the fetched refspecs
 	DevRelation string  `json:"devRelation"` // "", equal, ahead, unrelated, rewound: second branch `dev` on the remote
 	MaxPack uint64     `json:"maxPackfileSize"`
@@ -548,6 +549,9 @@ func runSyncCase(seed int64, thorough bool) (*syncInput, Res) {
 		if (in.Action == "fetch" || in.Action == "pull") && r.Intn(6) == 0 {
 			in.StreamResets = 1 + r.Intn(6)
 		}
+		if in.Action != "merge" && r.Intn(3) == 0 {
+			in.Dribble = 1 + r.Intn(12)
+		}
 		run := &syncRun{in: in, n: n, root: root, dir: dir, rdb: sdb, rrs: srs, srv: srv}
 		return run.do(args)
 	})
@@ -599,6 +603,7 @@ func (s *syncRun) do(args []string) Res {
 	os.Chdir(s.root) // merge writes CONFLICTS_*.csv into the working directory
 	defer os.Chdir(cwd)
 	setStreamResets(in.StreamResets)
+	setDribble(in.Dribble)
 	if s.arm != nil {
 		s.arm()
 	}
@@ -607,6 +612,7 @@ func (s *syncRun) do(args []string) Res {
 		s.disarm()
 	}
 	setStreamResets(0)
+	setDribble(0)
 	result := &syncResult{Failed: err != nil, Output: out, RoundTrips: s.srv.UploadRoundTrips, Packfiles: s.srv.Packfiles, Crashed: crashed}
 	if s.fired != nil {
 		result.FaultFired = s.fired()
@@ -1960,6 +1966,31 @@ type resetTransport struct {
 	left int
 	cut  int
 	spec *c09CutSpec // a cut on an object boundary (see boundary-cut)
+	dribble int      // the first reads of every response body are short
+}
+
+// dribbleBody hands out 1..3 bytes for each of its first `left` reads: what a transport may do
+type dribbleBody struct {
+	r    io.ReadCloser
+	left int
+}
+
+func (b *dribbleBody) Read(p []byte) (int, error) {
+	if b.left > 0 && len(p) > 0 {
+		if k := 1 + b.left%3; len(p) > k {
+			p = p[:k]
+		}
+		b.left--
+	}
+	return b.r.Read(p)
+}
+func (b *dribbleBody) Close() error { return b.r.Close() }
+
+func setDribble(k int) {
+	setStreamResets(-1)
+	theResetTransport.mu.Lock()
+	theResetTransport.dribble = k
+	theResetTransport.mu.Unlock()
 }
 
 func (t *resetTransport) RoundTrip(req *http.Request) (*http.Response, error) {
@@ -1969,6 +2000,13 @@ func (t *resetTransport) RoundTrip(req *http.Request) (*http.Response, error) {
 	}
 	t.mu.Lock()
 	defer t.mu.Unlock()
+	if t.dribble > 0 {
+		defer func() {
+			if resp != nil && resp.Body != nil {
+				resp.Body = &dribbleBody{r: resp.Body, left: t.dribble}
+			}
+		}()
+	}
 	if t.left > 0 && resp.Header.Get("Content-Type") == "application/x-wrgl-packfile" {
 		t.left--
 		t.cut++
@@ -2009,6 +2047,9 @@ func setStreamResets(k int) {
 	if theResetTransport == nil {
 		theResetTransport = &resetTransport{base: http.DefaultTransport}
 		http.DefaultTransport = theResetTransport
+	}
+	if k < 0 {
+		return // only make sure the transport is installed
 	}
 	theResetTransport.mu.Lock()
 	theResetTransport.left = k
